@@ -147,6 +147,10 @@ def c16_cases(run, rng):
             zs += [11] if k == 1 else [17, 1] if k == 2 else [15] * k
             edges += [(u + off, v + off) for u, v in K(k)[1]]
         yield "complete-components", _decorate(impl.graph_of(AM(zs, edges)), len(zs))
+    # very small, symmetric, not complete: a shuffle keeps the edge set with probability 1/3 (H-O-H, the four-ring) or 1/4 (BF3); a run of
+    # n + 1 such shuffles has probability 1/81 .. 1/1024 -> hundreds of seeds (the retry loop has to go on however long the run is)
+    for am in (AM([1, 8, 1], [(0, 1), (1, 2)]), AM([6, 6, 6, 6], [(0, 1), (1, 2), (2, 3), (3, 0)]), AM([5, 9, 9, 9], [(0, 1), (0, 2), (0, 3)])):
+        yield "tiny-symmetric", _decorate(impl.graph_of(am), len(am.zs))
     for k in ([2, 3, 4, 5, 8, 30] if quick else [2, 3, 4, 5, 6, 7, 8, 12, 30, 100]):
         n, e = gens.star(k)
         yield "star", _decorate(impl.graph_of(AM([6] + [1] * k, e)), k)
@@ -343,6 +347,9 @@ def c16(run, model):
         idx += 1
         special = fam not in ("random", "skeleton", "organic", "multi", "elements", "deep", "tree") or idx % 5 == 0
         seeds = [rng.random() for _ in range(nseeds)] + ([0.0, 0.999999] if special else [])
+        if fam == "tiny-symmetric":
+            k = {3: 400, 4: 1200}[g.number_of_nodes()] // (1 if quick else 1) * (1 if quick else 4)
+            seeds += [rng.random() for _ in range(k // 2)] + [j / (k // 2) for j in range(1, k // 2)]
         if fam == "complete-components":
             seeds += [rng.random() for _ in range(14 if quick else 40)] + [k / 64 for k in range(1, 8)]
         run.count("c16:family:" + fam)
@@ -1123,9 +1130,62 @@ def _first_difference(a, b):
     return {"at": k, "reference": a[max(0, k - 60):k + 80], "got": b[max(0, k - 60):k + 80]}
 
 
+def c14_same_object(run):
+    """C14 on ONE graph object: what an operation returns for a graph must not depend on which other operations were applied to the very
+    same object before (a writer call that lays the atoms out, canonicalization, serialization, the permutation helper)."""
+    import tucan.graph_utils as GU
+    rng = run.sub_rng("c14/same-object")
+    made = 0
+    for am in gens.standard_stream(rng, "quick"):
+        if am.n() > 40 or am.n() < 2:
+            continue
+        made += 1
+        if made > (40 if run.tier == "quick" else 250):
+            break
+        g = impl.graph_of(am, lambda i: {"x_coord": round(rng.uniform(-9, 9), 4), "y_coord": round(rng.uniform(-9, 9), 4),
+                                         "z_coord": round(rng.uniform(-9, 9), 4) if i % 3 else 0.0})
+        case = {"molecule": am.to_json()}
+
+        def observe():
+            text = impl.graph_to_molfile(g)
+            lines = text.split("\n")
+            return {"graph_to_molfile (body)": lines[:1] + lines[2:], "canonicalize + serialize": impl.tucan_of(g)}
+        try:
+            before = observe()
+        except Exception as e:
+            run.notes.append("c14 same-object: observer raised %s on a stream molecule" % type(e).__name__)
+            continue
+        steps = [("graph_to_molfile(g, calc_coordinates=True)", lambda: impl.graph_to_molfile(g, calc_coordinates=True)),
+                 ("canonicalize_molecule(g)", lambda: impl.canonicalize_molecule(g)),
+                 ("serialize_molecule(canonicalize_molecule(g))", lambda: impl.serialize_molecule(impl.canonicalize_molecule(g))),
+                 ("permute_molecule(g, 0.3)", lambda: GU.permute_molecule(g, 0.3)),
+                 ("graph_to_molfile(g)", lambda: impl.graph_to_molfile(g))]
+        rng.shuffle(steps)
+        saved = random.getstate()
+        try:
+            for name, fn in steps:
+                run.evaluations += 1
+                try:
+                    fn()
+                    after = observe()
+                except Exception as e:
+                    _hit(run, "C14", "an operation raised %s on a graph object that earlier operations had been applied to (%s)" % (type(e).__name__, name), case, {})
+                    break
+                changed = [k for k in before if before[k] != after[k]]
+                if changed:
+                    _hit(run, "C14", "result of %s for one graph object changed after an intermediate %s on the same object" % (changed[0], name), case,
+                         {"before": str(before[changed[0]])[:300], "after": str(after[changed[0]])[:300], "sequence": [n for n, _ in steps]})
+                    break
+        finally:
+            random.setstate(saved)
+        run.nontrivial.add(("same-object", made))
+    run.count("c14:same-object molecules", made)
+
+
 def c14(run, model):
     rng = run.sub_rng("c14")
     quick = run.tier == "quick"
+    c14_same_object(run)
     ops = build_workload(run, model)
     opmap = {o["id"]: o for o in ops}
     tmp = tempfile.NamedTemporaryFile("w", suffix=".json", prefix="verif-c14-", delete=False)
